@@ -35,18 +35,111 @@ type Mutation {
 
 // SeenUpload is what a resolver observed for one Upload value.
 type SeenUpload struct {
-	ArgPath     string `json:"arg_path"` // e.g. "files.1", "req.file"
-	Filename    string `json:"filename"`
-	ContentType string `json:"content_type"`
-	Size        int64  `json:"size"`
-	First       []byte `json:"first"`  // bytes from the interleaved first pass
-	Second      []byte `json:"second"` // bytes after Seek(0) in the second pass
-	Err         string `json:"err,omitempty"`
+	ArgPath     string     `json:"arg_path"` // e.g. "files.1", "req.file"
+	Filename    string     `json:"filename"`
+	ContentType string     `json:"content_type"`
+	Size        int64      `json:"size"`
+	First       []byte     `json:"first"`  // bytes from the interleaved first pass
+	Second      []byte     `json:"second"` // bytes after Seek(0) in the second pass
+	Err         string     `json:"err,omitempty"`
+	Trace       []OpResult `json:"trace,omitempty"` // scripted reader operations (part g)
+}
+
+// ROp is one reader operation of the part (g) alphabet.
+type ROp struct {
+	Kind   string `json:"kind"` // read | seek | readall
+	N      int    `json:"n,omitempty"`
+	Off    int64  `json:"off,omitempty"`
+	Whence int    `json:"whence,omitempty"`
+}
+
+func (o ROp) String() string {
+	switch o.Kind {
+	case "read":
+		return fmt.Sprintf("Read(%d)", o.N)
+	case "seek":
+		return fmt.Sprintf("Seek(%d,%s)", o.Off, [...]string{"Start", "Current", "End"}[o.Whence])
+	}
+	return "ReadAll"
+}
+
+// OpResult is what one operation returned: n (Read/ReadAll) or the new position (Seek),
+// the error class (nil / EOF / error) and the bytes obtained.
+type OpResult struct {
+	N    int64  `json:"n"`
+	Err  string `json:"err"`
+	Data []byte `json:"data,omitempty"`
+}
+
+func errClass(err error) string {
+	switch err {
+	case nil:
+		return "nil"
+	case io.EOF:
+		return "EOF"
+	}
+	return "error"
+}
+
+// applyOp runs one operation on any io.ReadSeeker (the delivered upload or the reference).
+func applyOp(r io.ReadSeeker, op ROp) OpResult {
+	switch op.Kind {
+	case "read":
+		buf := make([]byte, op.N)
+		n, err := r.Read(buf)
+		if n < 0 || n > len(buf) {
+			return OpResult{N: int64(n), Err: "error"}
+		}
+		return OpResult{N: int64(n), Err: errClass(err), Data: buf[:n]}
+	case "seek":
+		pos, err := r.Seek(op.Off, op.Whence)
+		return OpResult{N: pos, Err: errClass(err)}
+	default:
+		b, err := io.ReadAll(r)
+		return OpResult{N: int64(len(b)), Err: errClass(err), Data: b}
+	}
+}
+
+// opsFor: reader j runs the script rotated by j, so two readers of one file are driven
+// through different positions while their operations interleave.
+func opsFor(ops []ROp, j int) []ROp {
+	out := make([]ROp, len(ops))
+	for k := range ops {
+		out[k] = ops[(k+j)%len(ops)]
+	}
+	return out
+}
+
+// runOps applies the script to every delivered upload, interleaved step by step. A panic
+// inside a reader is not caught here - a resolver would not catch it either.
+func (s *upSchema) runOps(found []foundUpload) {
+	seen := make([]SeenUpload, len(found))
+	scripts := make([][]ROp, len(found))
+	for i, f := range found {
+		seen[i] = SeenUpload{ArgPath: f.path, Filename: f.up.Filename, ContentType: f.up.ContentType, Size: f.up.Size}
+		scripts[i] = opsFor(s.Ops, i)
+	}
+	record := func() {
+		s.mu.Lock()
+		s.Seen = append([]SeenUpload(nil), seen...)
+		s.mu.Unlock()
+	}
+	defer record() // keep the partial trace when a reader panics
+	for k := range s.Ops {
+		for i, f := range found {
+			if f.up.File == nil {
+				seen[i].Err = "nil File"
+				continue
+			}
+			seen[i].Trace = append(seen[i].Trace, applyOp(f.up.File, scripts[i][k]))
+		}
+	}
 }
 
 type upSchema struct {
 	schema *ast.Schema
 	mu     sync.Mutex
+	Ops    []ROp        // when set, resolvers run this reader script instead of the fixed inspection
 	Calls  []string     // "Mutation.upload" ...
 	Seen   []SeenUpload // in arg-path order
 }
@@ -209,7 +302,11 @@ func (s *upSchema) Exec(ctx context.Context) graphql.ResponseHandler {
 			if obj == "Mutation" {
 				var found []foundUpload
 				collectUploads("", args, &found)
-				s.inspect(found)
+				if s.Ops != nil {
+					s.runOps(found)
+				} else {
+					s.inspect(found)
+				}
 				val = fmt.Sprintf("%s:%d", f.Name, len(found))
 			}
 			vb, _ := json.Marshal(val)
